@@ -144,14 +144,26 @@ def run(tier, seed):
         ctx.sample({"k": k, "n": n, "law_of_one_subset": str(list(want.values())[0]),
                     "observed": {str(sorted(s_)): c for s_, c in list(cnt.items())[:4]}})
     # larger instances: inclusion k/n by arrival decile
-    for (k, n, MM) in ([(10, 200, 3000)] if quick else [(10, 200, 30000), (100, 1000, 2000)]):
+    # (the size also given as NumPy integer scalars of every width, positionally: streams longer than the type's range)
+    big = [(10, 200, 3000, int, False), (5, 300, 1200, np.int8, False), (5, 300, 1200, np.uint8, True), (6, 400, 800, np.int16, False)] if quick \
+        else [(10, 200, 30000, int, False), (100, 1000, 2000, int, True), (5, 300, 12000, np.int8, False), (5, 300, 12000, np.uint8, True),
+              (6, 400, 8000, np.int16, False), (7, 300, 8000, np.int64, True), (3, 70000, 40, np.uint16, False)]
+    for (k, n, MM, conv, positional) in big:
         random.seed(seed + k)
         np.random.seed((seed + k) % 2 ** 32)
         cnt = [0] * (n + 1)
+        raised = 0
         for _ in range(MM):
-            st = GS.make("uniform", k, False)
-            for t in range(1, n + 1):
-                st.update({"id": t})
+            st = GS.make("uniform", k, False, conv=conv, positional=positional)
+            try:
+                for t in range(1, n + 1):
+                    st.update({"id": t})
+            except Exception as e:
+                raised += 1
+                if raised == 1:
+                    ctx.violation("stat.update_raises", "k=%d n=%d size given as %s" % (k, n, conv.__name__),
+                                  "update %d raised %s: %s" % (t, type(e).__name__, str(e)[:200]), {"k": k, "n": n})
+                continue
             for x in st.get_data()[0]:
                 cnt[x["id"]] += 1
         width = n // 10
@@ -161,10 +173,11 @@ def run(tier, seed):
             pv = dist.binom_two_sided_p(obs, MM * k, len(ts) / n)   # each run keeps k items; share of this decile
             cells += 1
             if pv < THRESH:
-                ctx.violation("stat.uniform_inclusion", "k=%d n=%d" % (k, n), "arrival decile %d: share %.4f of kept items, "
+                ctx.violation("stat.uniform_inclusion", "k=%d n=%d size given as %s" % (k, n, conv.__name__), "arrival decile %d: share %.4f of kept items, "
                               "law %.4f, p-value %.3g" % (b + 1, obs / (MM * k), len(ts) / n, pv), {"k": k, "n": n, "M": MM})
         ctx.evaluations += MM
-        ctx.add_stage("seeded statistics k=%d n=%d inclusion by arrival decile" % (k, n), "statistics", runs=MM)
+        ctx.add_stage("seeded statistics k=%d (%s%s) n=%d inclusion by arrival decile" % (k, conv.__name__, ", positional" if positional else "", n),
+                      "statistics", runs=MM)
     ctx.count_clause("stat.uniform_*", cells)
     gap_whitebox(ctx, 40 if quick else 400, seed)
     ctx.assume("decided statistically on the code side (the weight W of Algorithm L is a continuous hidden variable): "
